@@ -234,6 +234,14 @@ def gen_model(r, max_modes=4, cplx=False, scale=1.0, **kw):
         SCALE[0] = 1.0
     if scale != 1.0:
         m.kinds.add("scaled_%g" % scale)
+    if cplx and m.modes() >= 2:
+        # the complex build is only interesting with genuinely complex matrix elements: make sure that at least one
+        # hopping-like term between two different modes carries a phase
+        modes = [(l, o, z) for l, no, ns in m.sites for o in range(no) for z in range(ns)]
+        r.shuffle(modes)
+        t = complex(nonzero_dyadic(r), nonzero_dyadic(r))
+        add_user_term(m, t, [(1,) + modes[0], (0,) + modes[1]])
+        m.kinds.add("complex_hop")
     return m
 
 
@@ -272,10 +280,12 @@ def custom_integrals(r, m):
     return "symm custom %d %s" % (len(polys), " ".join(polys))
 
 
-def core_script(m, order=0, symm="default", dump=True, shift=None):
+def core_script(m, order=0, symm="default", dump=True, shift=None, early=False):
     lines = list(m.build)
     if dump:
         lines.append("dumplattice")
+    if early:
+        lines.append("earlyctor")      # construct IndexClassification / IndexHamiltonian / Symmetrizer before any prepare()
     lines += ["index %d" % order, "ham"]
     if shift is not None:
         lines.append("hshift %s" % val(shift))      # constant energy offset
@@ -470,7 +480,7 @@ def numeric_campaign(ctx, props, want, n_quick, n_thorough, max_modes_quick=4, m
             ctx.count("corpus_cases", len(cs))
     for variant in variants:
         scripts, metas = [], []
-        for k in range(n if variant == "real" else (max(4, n // 3) if thorough else max(4, n // 5))):
+        for k in range(n if variant == "real" else max(6, n // 3)):
             mm = r.choice(list(range(2, (max_modes_thorough if thorough else max_modes_quick) + 1)))
             kw = {}
             if allow:
